@@ -38,6 +38,12 @@ theorem maxsize_setter_is_model (t : Impl.Table) (newmax : Nat) :
     ∃ f0, ∀ fuel, fuel ≥ f0 → dropS (Src.HeaderTable.maxsize_set fuel (absT t) (newmax : Int)) = tableRes (t.setMaxsize newmax) :=
   ⟨t.entries.length + 1, fun fuel hf => maxsize_set_tie t newmax fuel (by omega)⟩
 
+/-- `search(name, value)` = `Impl.Table.search`: the import-time static mapping first (full match wins; a name match is the
+fallback), then the dynamic entries newest first; returned as `(index, name, value or None)`; the table is not changed -/
+theorem search_is_model (t : Impl.Table) (name value : Bytes) (fuel : Nat) :
+    Src.HeaderTable.search fuel (absT t) name value = .ok (absT t, castRes name value (t.search name value)) :=
+  search_tie t name value fuel
+
 /-- a fresh object is the model's fresh table -/
 theorem new_is_model : Src.HeaderTable.new = absT {} := by
   simp [Src.HeaderTable.new, absT, Src.c_HeaderTable_DEFAULT_SIZE]
